@@ -18,6 +18,7 @@ RULE = ("case = one generated program of the provenance fragment (number / unsig
 
 SOUFFLE = [None]
 MAXQ = 40
+DEPTH = 12        # proof trees are printed in full and grow exponentially with their height (two recursive atoms per rule): keep them bounded
 DISABLE = ["MinimiseProgramTransformer", "RemoveRelationCopiesTransformer", "RemoveEmptyRelationsTransformer",
            "RemoveRedundantRelationsTransformer", "ReduceExistentialsTransformer", "ReplaceSingletonVariablesTransformer",
            "PartitionBodyLiteralsTransformer", "SimplifyConstantBinaryConstraintsTransformer", "RemoveRedundantSumsTransformer"]
@@ -385,7 +386,7 @@ def worker(arg):
         t = tuple((rng.choice(["a", "zz", "k_9", "x1", ""]) if ty.kind == "symbol" else rng.randint(-9 if ty.kind == "number" else 0, 50)) for (_, ty) in r.attrs)
         if t not in db[r.name] and "eqrel" not in r.quals:
             non.append((r, t, fmt_query(r, t)))
-    script = "format json\nsetdepth 40\n" + "".join("explain %s\n" % q for (_, _, q) in members + non) + "exit\n"
+    script = "format json\nsetdepth %d\n" % DEPTH + "".join("explain %s\n" % q for (_, _, q) in members + non) + "exit\n"
     viols = []
     tags = dc.shape_tags(prog)
     deep_total = 0
@@ -394,6 +395,11 @@ def worker(arg):
         run = runner.run_souffle(souffle, d, args=["-t", "explain"] + extra, outdir=od, timeout=240, stdin=script)
         ck = runner.crash_key(run)
         K = lambda k: "%s%s" % (k, "" if cname == "default" else "@no-ast-opts")
+        if ck == "timeout":
+            # printing 40 full proof trees can legitimately take long (a tree of height h over a rule with two recursive atoms has
+            # 2^h nodes); the statement promises valid proofs, not fast ones: the case is set aside, not reported
+            rec["counts"]["explain_timeouts"] = rec["counts"].get("explain_timeouts", 0) + 1
+            continue
         if ck is not None:
             viols.append((K("provenance:crash:" + ck), "souffle -t explain %s died (%s)\n%s\n%s" % (" ".join(extra), ck, run.err[-2500:], text)))
             continue
@@ -436,10 +442,10 @@ def worker(arg):
                 viols.append((K("explain:non-member-explained"), "explain %s (not in the result) does not answer 'Tuple not found': %r\n%s" % (
                     q, (root.axiom if root is not None else None), text)))
         # souffle builds proofs from minimal-level subproofs, so no proof is higher than the total number of fixpoint rounds (plus one
-        # level per stratum); a proof still cut off at depth 40 although the model needs far fewer rounds is circular
+        # level per stratum); a proof still cut off at the depth limit although the model needs far fewer rounds is circular
         height_bound = sum(v for v in ev.rounds.values()) + len(ev.rounds) + 2
-        if chk.cutoffs and height_bound < 38:
-            viols.append((K("explain:proof-deeper-than-any-derivation"), "[%s] %d proof branches were still open at depth 40 although the least model needs only %d rounds over all strata (a circular proof?)\n%s" % (
+        if chk.cutoffs and height_bound < DEPTH - 2:
+            viols.append((K("explain:proof-deeper-than-any-derivation"), "[%s] %d proof branches were still open at the depth limit although the least model needs only %d rounds over all strata (a circular proof?)\n%s" % (
                 cname, chk.cutoffs, height_bound, text)))
         c = rec["counts"]
         for k, v in (("proofs_checked", len(members)), ("proof_nodes", chk.nodes), ("proof_nodes_strongly_checked", chk.strong_nodes),
